@@ -336,7 +336,7 @@ def run(ctx):
     # ---- correspondence: regenerated model vs implementation
     if ctx.build(['Gen/leb128.vo', 'Lib/Val.vo'])[0]:
         rng = ctx.rng
-        values = boundary_values(19, wide=not ctx.quick()) + random_values(rng, 100 if ctx.quick() else 600)
+        values = sorted(boundary_values(19, wide=not ctx.quick()), key=abs) + random_values(rng, 100 if ctx.quick() else 600)
         cases, recs, seen = [], [], set()
         dist = {}
 
